@@ -33,7 +33,12 @@ Early == {PE("early", f, er, <<>>) : f \in {Bin("+", M, Num(1)), Bin("-", Num(10
      \cup {PE("early", Bin("+", M, A), er, <<InA>>) : er \in EarlyR}
 Extra2 == <<SLet("Signal", "p", Bin("+", M, Num(1)))>>
 Extra3 == <<SLet("Signal", "p", Bin("*", M, Num(2))), SLet("Signal", "q", Bin(">", M, Num(3)))>>
-All == Early \cup {P("const", f, <<>>, <<>>) : f \in Fs1} \cup {P("input", f, <<>>, <<InA>>) : f \in FsA} \cup {P("cond", f, <<>>, <<>>) : f \in FsC}
+\* operand ORDER: the running value on the right of a step, a held input (of the cell's type, by projection) on the left
+AM == Proj(A, TName(TM))
+FsO == {Bin(op, AM, Bin("*", M, Num(3))) : op \in {"+", "-", "XOR"}} \cup {Bin(op, Bin("*", M, Num(3)), AM) : op \in {"-", "XOR"}}
+       \cup {Bin(op, AM, M) : op \in {"+", "-"}} \cup {Bin("%", Bin(op, AM, Bin("+", M, Num(1))), Num(17)) : op \in {"+", "-"}}
+       \cup {Bin("-", Num(50), Bin("*", M, Num(3))), Bin("-", Bin("-", Num(50), M), AM), Bin("+", AM, Bin("-", Num(9), M))}
+All == Early \cup {P("order", f, <<>>, <<InA>>) : f \in FsO} \cup {P("const", f, <<>>, <<>>) : f \in Fs1} \cup {P("input", f, <<>>, <<InA>>) : f \in FsA} \cup {P("cond", f, <<>>, <<>>) : f \in FsC}
    \cup {P("readers", f, Extra2, <<>>) : f \in {Bin("+", M, Num(1)), Bin("%", Bin("+", M, Num(1)), Num(10)), CondE(Bin("<", M, Num(10)), Bin("+", M, Num(1)))}}
    \cup {P("readers", f, Extra3, <<InA>>) : f \in {Bin("+", M, A), Bin("AND", Bin("+", Bin("*", M, Num(5)), Num(3)), Num(255))}}
 ASSUME PrintT(<<"NPROGS", Cardinality(All)>>)
